@@ -264,6 +264,120 @@ Fixpoint foldO {A} (f : M -> A -> outcome M) (l : list A) (m : M) : outcome M :=
   | x :: r => match f m x with Done m' => foldO f r m' | Fail m' => Fail m' | Panic s => Panic s end
   end.
 
+(* ---------------------------------------------------------------- channels (broker/src/broker/channel.rs) *)
+(* the per-channel logic as pure functions, exactly as channel.rs separates it from broker.rs *)
+Definition channel_cap_add (a b : N) : option N := if a + b <=? u32_max then Some (a + b) else None.
+
+Inductive claim_outcome :=
+| ClaimErr (r : res_claim)                          (* AlreadyClaimed / InvalidChannel *)
+| ClaimOk (ch' : chan) (other : conn) (r : res_claim)
+| ClaimPanic (site : N).                            (* the unreachable!() arms *)
+
+(* Channel::claim_sender / claim_receiver *)
+Definition chan_claim (ch : chan) (c : conn) (e : chan_end_cap) : claim_outcome :=
+  match e with
+  | CSender =>
+      match ch_s ch with
+      | Claimed _ _ => ClaimErr CLAlready
+      | Closed => ClaimErr CLInvalid
+      | Unclaimed =>
+          match ch_r ch with
+          | Claimed ro cap => ClaimOk (ch <| ch_s := Claimed c cap |>) ro (CLSenderClaimed cap)
+          | _ => ClaimPanic 30
+          end
+      end
+  | CReceiver cap =>
+      match ch_r ch with
+      | Claimed _ _ => ClaimErr CLAlready
+      | Closed => ClaimErr CLInvalid
+      | Unclaimed =>
+          match ch_s ch with
+          | Claimed so _ => ClaimOk {| ch_s := Claimed so cap; ch_r := Claimed c cap |} so CLReceiverClaimed
+          | _ => ClaimPanic 31
+          end
+      end
+  end.
+
+(* Channel::check_close *)
+Definition chan_close_result (ch : chan) (c : conn) (e : chan_end) : res3 :=
+  match (match e with ESender => ch_s ch | EReceiver => ch_r ch end) with
+  | Unclaimed => R3Ok
+  | Claimed o _ => if bool_decide (o = c) then R3Ok else R3Foreign
+  | Closed => R3Invalid
+  end.
+
+Inductive close_outcome :=
+| CloseDrop                                  (* the channel is removed *)
+| CloseNotify (ch' : chan) (other : conn)    (* stays, with this end Closed; tell the other owner *)
+| ClosePanic (site : N).
+
+(* Channel::close *)
+Definition chan_close (ch : chan) (e : chan_end) : close_outcome :=
+  let '(own, other, ch') :=
+    match e with
+    | ESender => (ch_s ch, ch_r ch, ch <| ch_s := Closed |>)
+    | EReceiver => (ch_r ch, ch_s ch, ch <| ch_r := Closed |>)
+    end in
+  match own, other with
+  | Claimed _ _, Unclaimed | Claimed _ _, Closed => CloseDrop
+  | Unclaimed, Claimed o _ | Claimed _ _, Claimed o _ => CloseNotify ch' o
+  | _, _ => ClosePanic 10
+  end.
+
+Inductive add_cap_outcome :=
+| AddIgnore
+| AddOverflow                                          (* close the receiver *)
+| AddUpdate (ch' : chan) (notify : option (conn * N))  (* sender owner, capacity to announce *)
+| AddPanic (site : N).
+
+(* Channel::add_capacity, for a request from [c] *)
+Definition chan_add_capacity (ch : chan) (c : conn) (cap : N) : add_cap_outcome :=
+  if cap =? 0 then AddIgnore else
+  match ch_r ch with
+  | Claimed ro rc =>
+      if negb (bool_decide (ro = c)) then AddIgnore else
+      match channel_cap_add rc cap with
+      | None => AddOverflow
+      | Some nrc =>
+          let ch1 := ch <| ch_r := Claimed ro nrc |> in
+          match ch_s ch with
+          | Claimed so sc_ =>
+              if sc_ <=? LOW_CAPACITY then
+                if negb (sc_ <? nrc) then AddPanic 32
+                else AddUpdate (ch1 <| ch_s := Claimed so nrc |>) (Some (so, nrc - sc_))
+              else AddUpdate ch1 None
+          | _ => AddUpdate ch1 None
+          end
+      end
+  | _ => AddIgnore
+  end.
+
+Inductive send_item_outcome :=
+| ItemIgnore
+| ItemReceiverUnclaimed            (* both ends are removed *)
+| ItemExhausted                    (* the sender end is closed *)
+| ItemForward (ch' : chan) (ro : conn) (add : option N)
+| ItemPanic (site : N).
+
+(* Channel::send_item, for an item from [c] *)
+Definition chan_send_item (ch : chan) (c : conn) : send_item_outcome :=
+  match ch_s ch with
+  | Claimed so sc_ =>
+      if negb (bool_decide (so = c)) then ItemIgnore else
+      match ch_r ch with
+      | Unclaimed => ItemReceiverUnclaimed
+      | Closed => ItemIgnore
+      | Claimed ro rc =>
+          if sc_ =? 0 then (if negb (rc =? 0) then ItemPanic 33 else ItemExhausted) else
+          if rc =? 0 then ItemPanic 34 else
+          let sc1 := sc_ - 1 in let rc1 := rc - 1 in
+          let add := if (sc1 <=? LOW_CAPACITY) && (sc1 <? rc1) then Some (rc1 - sc1) else None in
+          let sc2 := match add with Some _ => rc1 | None => sc1 end in
+          ItemForward {| ch_s := Claimed so sc2; ch_r := Claimed ro rc1 |} ro add
+      end
+  | _ => ItemIgnore
+  end.
+
 (* ---------------------------------------------------------------- removal cascade *)
 Definition remove_listener (m : M) (k : uuid) : M :=
   match listeners (ms m) !! k with
@@ -276,18 +390,13 @@ Definition remove_end (m : M) (cookie : uuid) (e : chan_end) : outcome M :=
   match chans (ms m) !! cookie with
   | None => Done m
   | Some ch =>
-      let '(own, other, ch') :=
-        match e with
-        | ESender => (ch_s ch, ch_r ch, ch <| ch_s := Closed |>)
-        | EReceiver => (ch_r ch, ch_s ch, ch <| ch_r := Closed |>)
-        end in
-      let m1 := m <| ms; chans ::= <[cookie := ch']> |> in
-      let drop := m1 <| ms; chans ::= delete cookie |> <| ms; st; n_chans ::= sat_sub1 |> in
-      match own, other with
-      | Claimed _ _, Unclaimed | Claimed _ _, Closed => Done drop
-      | Unclaimed, Claimed o _ | Claimed _ _, Claimed o _ =>
+      let drop := m <| ms; chans ::= delete cookie |> <| ms; st; n_chans ::= sat_sub1 |> in
+      match chan_close ch e with
+      | CloseDrop => Done drop
+      | CloseNotify ch' o =>
+          let m1 := m <| ms; chans ::= <[cookie := ch']> |> in
           if has m1 o then send_or_remove m1 o (ChannelEndClosed cookie e) None else Done drop
-      | _, _ => Panic 10
+      | ClosePanic site => Panic site
       end
   end.
 
@@ -477,7 +586,6 @@ Fixpoint settle (fuel : nat) (m : M) : outcome M :=
   end.
 
 (* ---------------------------------------------------------------- handlers *)
-Definition channel_cap_add (a b : N) : option N := if a + b <=? u32_max then Some (a + b) else None.
 
 Definition create_service_impl (m : M) (c : conn) (serial : N) (oc u : uuid) (i : option info)
   (fresh : uuid) : outcome M :=
@@ -663,11 +771,7 @@ Definition handle (m : M) (c : conn) (x : msg) (fresh : uuid) (bserial : option 
       match chans (ms m) !! cookie with
       | None => send m c (CloseChannelEndReply serial R3Invalid) None
       | Some ch =>
-          let stt := match e with ESender => ch_s ch | EReceiver => ch_r ch end in
-          let result := match stt with
-                        | Unclaimed => R3Ok
-                        | Claimed o _ => if bool_decide (o = c) then R3Ok else R3Foreign
-                        | Closed => R3Invalid end in
+          let result := chan_close_result ch c e in
           send m c (CloseChannelEndReply serial result) None >>> fun m1 =>
           match result with R3Ok => remove_end m1 cookie e | _ => Done m1 end
       end
@@ -675,43 +779,20 @@ Definition handle (m : M) (c : conn) (x : msg) (fresh : uuid) (bserial : option 
       match chans (ms m) !! cookie with
       | None => send m c (ClaimChannelEndReply serial CLInvalid) None
       | Some ch =>
-          match e with
-          | CSender =>
-              match ch_s ch with
-              | Claimed _ _ => send m c (ClaimChannelEndReply serial CLAlready) None
-              | Closed => send m c (ClaimChannelEndReply serial CLInvalid) None
-              | Unclaimed =>
-                  match ch_r ch with
-                  | Claimed ro cap =>
-                      let m1 := m <| ms; chans ::= <[cookie := ch <| ch_s := Claimed c cap |>]> |> in
-                      let res := send m1 c (ClaimChannelEndReply serial (CLSenderClaimed cap)) None in
-                      let m2 := match res with Done x | Fail x => x | Panic _ => m1 end in
-                      match res with Panic s => Panic s | _ =>
-                        match send_or_remove m2 ro (ChannelEndClaimed cookie e) None with
-                        | Done m3 => match res with Fail _ => Fail m3 | _ => Done m3 end
-                        | other => other
-                        end
-                      end
-                  | _ => Panic 30
-                  end
-              end
-          | CReceiver cap =>
-              match ch_r ch with
-              | Claimed _ _ => send m c (ClaimChannelEndReply serial CLAlready) None
-              | Closed => send m c (ClaimChannelEndReply serial CLInvalid) None
-              | Unclaimed =>
-                  match ch_s ch with
-                  | Claimed so _ =>
-                      let m1 := m <| ms; chans ::= <[cookie := {| ch_s := Claimed so cap; ch_r := Claimed c cap |}]> |> in
-                      let res := send m1 c (ClaimChannelEndReply serial CLReceiverClaimed) None in
-                      let m2 := match res with Done x | Fail x => x | Panic _ => m1 end in
-                      match res with Panic s => Panic s | _ =>
-                        match send_or_remove m2 so (ChannelEndClaimed cookie e) None with
-                        | Done m3 => match res with Fail _ => Fail m3 | _ => Done m3 end
-                        | other => other
-                        end
-                      end
-                  | _ => Panic 31
+          match chan_claim ch c e with
+          | ClaimErr r => send m c (ClaimChannelEndReply serial r) None
+          | ClaimPanic site => Panic site
+          | ClaimOk ch' other r =>
+              let m1 := m <| ms; chans ::= <[cookie := ch']> |> in
+              (* the reply's error is returned only after the other end's owner was told *)
+              let res := send m1 c (ClaimChannelEndReply serial r) None in
+              match res with
+              | Panic s => Panic s
+              | Done m2 => send_or_remove m2 other (ChannelEndClaimed cookie e) None
+              | Fail m2 =>
+                  match send_or_remove m2 other (ChannelEndClaimed cookie e) None with
+                  | Done m3 => Fail m3
+                  | x => x
                   end
               end
           end
@@ -720,49 +801,32 @@ Definition handle (m : M) (c : conn) (x : msg) (fresh : uuid) (bserial : option 
       match chans (ms m) !! cookie with
       | None => Done m
       | Some ch =>
-          if cap =? 0 then Done m else
-          match ch_r ch with
-          | Claimed ro rc =>
-              if negb (bool_decide (ro = c)) then Done m else
-              match channel_cap_add rc cap with
-              | None => remove_end m cookie EReceiver
-              | Some nrc =>
-                  let ch1 := ch <| ch_r := Claimed ro nrc |> in
-                  match ch_s ch with
-                  | Claimed so sc_ =>
-                      if sc_ <=? LOW_CAPACITY then
-                        if negb (sc_ <? nrc) then Panic 32 else
-                        let m1 := m <| ms; chans ::= <[cookie := ch1 <| ch_s := Claimed so nrc |>]> |> in
-                        if has m1 so then send_or_remove m1 so (AddChannelCapacity cookie (nrc - sc_)) None else Done m1
-                      else Done (m <| ms; chans ::= <[cookie := ch1]> |>)
-                  | _ => Done (m <| ms; chans ::= <[cookie := ch1]> |>)
-                  end
+          match chan_add_capacity ch c cap with
+          | AddIgnore => Done m
+          | AddOverflow => remove_end m cookie EReceiver
+          | AddPanic site => Panic site
+          | AddUpdate ch' notify =>
+              let m1 := m <| ms; chans ::= <[cookie := ch']> |> in
+              match notify with
+              | Some (so, n) => if has m1 so then send_or_remove m1 so (AddChannelCapacity cookie n) None else Done m1
+              | None => Done m1
               end
-          | _ => Done m
           end
       end
   | SendItem cookie v =>
       match chans (ms m) !! cookie with
       | None => Done m
       | Some ch =>
-          match ch_s ch with
-          | Claimed so sc_ =>
-              if negb (bool_decide (so = c)) then Done m else
-              match ch_r ch with
-              | Unclaimed => remove_end m cookie EReceiver >>> fun m1 => remove_end m1 cookie ESender
-              | Closed => Done m
-              | Claimed ro rc =>
-                  if sc_ =? 0 then (if negb (rc =? 0) then Panic 33 else remove_end m cookie ESender) else
-                  if rc =? 0 then Panic 34 else
-                  let sc1 := sc_ - 1 in let rc1 := rc - 1 in
-                  let add := if (sc1 <=? LOW_CAPACITY) && (sc1 <? rc1) then Some (rc1 - sc1) else None in
-                  let sc2 := match add with Some _ => rc1 | None => sc1 end in
-                  let m1 := m <| ms; chans ::= <[cookie := {| ch_s := Claimed so sc2; ch_r := Claimed ro rc1 |}]> |> in
-                  if negb (has m1 ro) then Done m1 else
-                  send_or_remove m1 ro (ItemReceived cookie v) (Some ver) >>> fun m2 =>
-                  match add with Some a => send m2 c (AddChannelCapacity cookie a) None | None => Done m2 end
-              end
-          | _ => Done m
+          match chan_send_item ch c with
+          | ItemIgnore => Done m
+          | ItemPanic site => Panic site
+          | ItemReceiverUnclaimed => remove_end m cookie EReceiver >>> fun m1 => remove_end m1 cookie ESender
+          | ItemExhausted => remove_end m cookie ESender
+          | ItemForward ch' ro add =>
+              let m1 := m <| ms; chans ::= <[cookie := ch']> |> in
+              if negb (has m1 ro) then Done m1 else
+              send_or_remove m1 ro (ItemReceived cookie v) (Some ver) >>> fun m2 =>
+              match add with Some a => send m2 c (AddChannelCapacity cookie a) None | None => Done m2 end
           end
       end
   | Sync serial => send m c (SyncReply serial) None
